@@ -51,7 +51,20 @@ def main():
         print("unknown property", prop)
         sys.exit(2)
     try:
-        rc = reg[prop](prop, tier, seed)
+        try:
+            rc = reg[prop](prop, tier, seed)
+        except Exception as ex:
+            if type(ex).__name__ != "LibraryPanic":
+                raise
+            # the library panicked while the driver was exercising it: an execution of the real code no specification explains
+            os.makedirs(os.path.join(vlib.OUT, "replay"), exist_ok=True)
+            path = os.path.join(vlib.OUT, "replay", "%s-%s-panic.json" % (prop, tier))
+            with open(path, "w") as f:
+                json.dump({"property": prop, "kind": "panic", "panic": ex.msg, "stack": ex.stack, "driver": ex.where, "seed": seed}, f)
+            vlib.write_inconclusive(prop, tier, seed, "library panic: " + ex.msg)
+            print("VIOLATION property=%s replay=%s" % (prop, path))
+            print("  detail: the library panicked inside the driver (%s): %s" % (ex.where, ex.msg))
+            sys.exit(1)
     except Inconclusive as ex:
         print("INCONCLUSIVE property=%s: %s" % (prop, str(ex)[:4000]))
         vlib.write_inconclusive(prop, tier, seed, str(ex))
